@@ -88,6 +88,15 @@ func (s *testStore) GetBalances(ctx context.Context, q numscript.BalanceQuery) (
 	i := s.ncalls
 	s.ncalls++
 	if i == s.failAt {
+		if len(q)%2 == 1 {
+			// an error comes with whatever the store had gathered so far: a non-nil, partial answer
+			partial := numscript.Balances{}
+			for a := range q {
+				partial[a] = numscript.AccountBalance{}
+				break
+			}
+			return partial, injectedErr()
+		}
 		return nil, injectedErr()
 	}
 	s.log = append(s.log, storeCall{balances: copyQuery(q)})
